@@ -34,12 +34,16 @@ def predict_zid_line(line: str, zid: str) -> Optional[str]:
     if p is None:
         return None
     words = p["rest"].split(" ")
+    ending = ""
     if words and _is_calendar_long_date(words[0]):
+        # (on a page with \r\n line endings the \r after the date is part of the line break)
+        if words[0].endswith("\r"):
+            ending = "\r"
         words = words[1:]
         while words and words[0] == "":
             words.pop(0)
     pre = p["kind"] + (f" {p['prio']}" if p["prio"] else "")
-    return f"{pre} {zid} {' '.join(words)}"
+    return f"{pre} {zid} {' '.join(words)}{ending}"
 
 
 def _is_calendar_long_date(word: str) -> bool:
